@@ -234,6 +234,21 @@ func c03Gen(seed int64, tier string, batch, i int) c03Input {
 			if r.Intn(4) == 0 {
 				in.Text = mut(in.Text)
 			}
+			if r.Intn(3) == 0 {
+				// self- and mutually referential input types whose recursive fields carry object / list defaults
+				in.Entry, in.Cat = "resolve-recursive-input", "recursive-input-defaults"
+				in.Text = c03RecInputRequests[r.Intn(len(c03RecInputRequests))]
+				in.Vars = map[string]interface{}{}
+				for _, k := range []string{"f", "g", "n"} {
+					if r.Intn(2) == 0 {
+						in.Vars[k] = []interface{}{map[string]interface{}{}, map[string]interface{}{"tag": "t"}, map[string]interface{}{"and": map[string]interface{}{}}, map[string]interface{}{"any": []interface{}{map[string]interface{}{}}},
+							map[string]interface{}{"peer": map[string]interface{}{"back": map[string]interface{}{}}}, nil, c03RandJSON(r, 3)}[r.Intn(7)]
+					}
+				}
+				if r.Intn(5) == 0 {
+					in.Text = mut(in.Text)
+				}
+			}
 			break
 		}
 		// random directive definition graphs: directives used on the arguments of directives, acyclic, self-cyclic,
@@ -388,6 +403,27 @@ var c03UnboundRequests = []string{
 	`{ cat { name lives friend { name } } }`, `{ grid { name ...F } } fragment F on Pet { friend { name } __typename }`,
 	`{ pet { ... on Cat { friend { ... on Dog { friend { name } } } } } pets { friend { friend { friend { name } } } } }`,
 	`{ __typename pet { __typename } pets { __typename } u { __typename } us { __typename } cat { __typename } }`,
+}
+
+// ---------------------------------------------------------------- recursive input types with defaults
+
+const c03RecInputSDL = `type Query { count(filter: Filter, node: Node = {name: "root"}): String list(filters: [Filter!] = [{tag: "d"}]): String }
+input Filter { tag: String limit: Int = 10 and: Filter = {limit: 5} any: [Filter] = [{tag: "x"}, {}] peer: Node }
+input Node { name: String = "n" back: Filter = {tag: "from node"} kids: [Node!] = [] }`
+
+type c03RecRoot struct{ Query *c03RecQuery }
+type c03RecQuery struct{}
+
+func (q *c03RecQuery) Count(filter map[string]interface{}, node map[string]interface{}) string {
+	return fmt.Sprint(len(filter), len(node))
+}
+func (q *c03RecQuery) List(filters []interface{}) string { return fmt.Sprint(len(filters)) }
+
+var c03RecInputRequests = []string{
+	`{ count(filter: {tag: "a"}) }`, `{ count(filter: {}) }`, `{ count }`, `{ list }`, `{ list(filters: [{}, {and: {}}]) }`,
+	`query($f: Filter) { count(filter: $f) }`, `query($f: Filter = {}) { count(filter: $f) }`, `query($f: Filter = {any: [{}]}) { count(filter: $f) list(filters: [$f]) }`,
+	`query($n: Node) { count(node: $n) }`, `query($g: [Filter!]) { list(filters: $g) }`, `{ count(filter: {and: {and: {and: {}}}}, node: {kids: [{kids: [{}]}]}) }`,
+	`{ count(filter: {peer: {back: {peer: {}}}}) }`, `query($f: Filter, $n: Node) { count(filter: {and: $f, peer: $n}) }`,
 }
 
 // ---------------------------------------------------------------- child
@@ -667,6 +703,18 @@ func c03Exec(in c03Input) {
 		c03Budget, c03YieldBudget = 0, 0
 		var b bytes.Buffer
 		_ = ggql.WriteJSONValue(&b, res, r.Intn(3)-1)
+	case "resolve-recursive-input":
+		root := ggql.NewRoot(&c03RecRoot{Query: &c03RecQuery{}})
+		if err := root.ParseString(c03RecInputSDL); err != nil {
+			panic(err)
+		}
+		c03SetBudget(len(in.Text))
+		res := root.ResolveString(in.Text, in.Op, in.Vars)
+		c03Budget, c03YieldBudget = 0, 0
+		var b bytes.Buffer
+		_ = ggql.WriteJSONValue(&b, res, r.Intn(3)-1)
+		_ = root.SDL(false, true)
+		_ = root.ResolveString(`{ __type(name: "Filter") { inputFields { name defaultValue type { name kind ofType { name } } } } }`, "", nil)
 	case "resolve-gen":
 		ec := newExecCaseG(r, gen.SchemaOpts{Args: in.Backend != "reflect", Mutation: true, Abstract: in.Backend == "reflect"},
 			gen.DocOpts{Frags: true, Dirs: true, Vars: true, Aliases: true, Mutation: true, Abstract: in.Backend == "reflect", Depth: 2 + r.Intn(3)}, gen.GraphOpts{TypedNil: 3})
